@@ -11,7 +11,7 @@ _whole.install(globals(), "C06",
                     "(ghost d_should/d_meta0), a deme created by a round is not scheduled in that metaepoch, the running deme is active and awake, and over any number of further steps an "
                     "inactive deme stays inactive with unchanged evaluation counter and history length. Tie: machine replay (the machine has no transition that re-activates a deme, runs an "
                     "inactive one, or skips an LSC/GSC verdict) + per-step monitors on the real run (stop causes, frozen histories, started_at).",
-               note="'stops exactly when LSC/GSC/engine says so' is the machine's transition relation (accepted traces only) and is measured by the monitor; the contents of histories are C02/C11.",
+               note="'stops exactly when LSC/GSC/engine says so' is the machine's transition relation (accepted traces only) and is measured by the monitor; the verdicts of MetaepochLimit and of FitnessSteadiness (the latter in exact rational arithmetic over the recorded history, borderline cases not judged) are recomputed by the monitor independently of what the condition answered; the contents of histories are C02/C11.",
                technique="Coq invariants (exactly-once scheduling, frozen inactive demes) over all event streams + vm_compute trace replay against the real package",
                front_ends=["driver", "stops", "ctor"], quick=240, thorough=6000, nontrivial=nontrivial,
                forces=[(4, None), (1, {"height": 2, "engines": ["SEA", "Local"], "objective_kind": "zero", "levels_patch": [{}, {"method": "L-BFGS-B"}]}),
